@@ -18,8 +18,9 @@ type binReplayer struct {
 	n     int
 }
 
-func startReplayer(rootArg, cwd, logDir string, allow bool) (*binReplayer, error) {
+func startReplayer(rootArg, cwd, logDir string, allow bool, extra ...string) (*binReplayer, error) {
 	args := []string{"server", "--listen-addr=127.0.0.1:0", "--read-timeout=2m"}
+	args = append(args, extra...)
 	if rootArg != "" {
 		args = append(args, "--root="+rootArg)
 	}
@@ -125,17 +126,23 @@ type replayGate struct {
 	slice int
 	n     int
 	prop  string
+	tag   string
 }
 
 func newReplayGate(r *Reporter, prop, root, cwd string, allow bool, quickSlice, thoroughSlice int) *replayGate {
-	g := &replayGate{r: r, prop: prop, slice: quickSlice}
+	return newReplayGateArgs(r, prop, "", root, cwd, allow, quickSlice, thoroughSlice)
+}
+
+// newReplayGateArgs: a second real server with extra command-line flags (tag keeps its log directory apart).
+func newReplayGateArgs(r *Reporter, prop, tag, root, cwd string, allow bool, quickSlice, thoroughSlice int, extra ...string) *replayGate {
+	g := &replayGate{r: r, prop: prop, tag: tag, slice: quickSlice}
 	if r.Thorough() {
 		g.slice = thoroughSlice
 	}
 	if binPath() == "" {
 		return g
 	}
-	br, err := startReplayer(root, cwd, binLogDir(prop), allow)
+	br, err := startReplayer(root, cwd, binLogDir(prop+tag), allow, extra...)
 	if err != nil {
 		r.HarnessError("cannot start the real binary for conformance replay: " + err.Error())
 		return g
@@ -148,7 +155,7 @@ func (g *replayGate) Stop() {
 	if g.br != nil {
 		g.br.Stop()
 	}
-	os.RemoveAll(binLogDir(g.prop))
+	os.RemoveAll(binLogDir(g.prop + g.tag))
 }
 
 // binLogDir: the binary's log and HOME live outside every world so that tree snapshots do not see them.
